@@ -20,7 +20,7 @@ func c16Queue(out *vh.Out, op string) {
 	if retried {
 		rs = "1"
 	}
-	out.Corr(op, verr.CanonReply(r)+" retry="+rs)
+	out.Corr(op, verr.CanonStored(r)+" retry="+rs)
 	verr.CheckReply(out, "queue", op, n, r, false, retried)
 	if verr.WellFormed(n) {
 		out.Stat("tosmtp.wellformed")
